@@ -82,9 +82,10 @@ SpecifiersEv ==
   /\ Rec[l].ev = "specifiers"
   /\ LET obs == { <<Rec[l].list[i][1], Rec[l].list[i][2]>> : i \in DOMAIN Rec[l].list }
          decl == SpecifiersDecl(g)
-         f3 == obs = SpecifiersCoded(g) /\ \A p \in decl \ obs : ChainLen(g, p[1], {p[1]}) >= 2 \/ HitsCycle(g, p[1])
+         \* F3 (sources of >= 2-hop chains omitted) is fixed; what remains is the node cap / cycles of resolve()
+         f3 == obs = SpecifiersCoded(g) /\ \A p \in decl \ obs : LongOrCyclic(p[1])
          f12 == obs = SpecifiersCoded(g) /\ \A p \in obs \ decl : HitsCycle(g, p[1]) \/ HasSlot(g, p[1])
-     IN /\ Check("C14", "specifiers-complete", decl \subseteq obs, "F3", f3, obs, decl)
+     IN /\ Check("C14", "specifiers-complete", decl \subseteq obs, "F2/F11", f3, obs, decl)
         /\ Check("C14", "specifiers-sound", obs \subseteq decl, "F12", f12, obs, decl)
   /\ l' = l + 1 /\ UNCHANGED g
 
@@ -117,15 +118,30 @@ DiffSpecs(a, b) == { s \in (DOMAIN a.slots) \cup (DOMAIN b.slots) :
                        ~(s \in DOMAIN a.redirects /\ s \in DOMAIN b.redirects /\ a.redirects[s] = b.redirects[s]) }
 CtxExplains(a, b, oa, ob) == g.ctx # {} /\ DiffSpecs(oa, ob) \subseteq (Below(a, g.ctx) \cup Below(b, g.ctx) \cup Below(g, g.ctx))
 
+\* Family F20/F12 (redirect limit and cycles): which member of an over-long or cyclic redirect chain carries
+\* the TooManyRedirects entry -- and hence where the chain is cut -- depends on which member was requested
+\* first.  A difference is explained by it when every differing specifier is connected by redirects (of either
+\* graph) to a TooManyRedirects entry, or lies below such a specifier.
+TmrSpecs(gg) == { s \in DOMAIN gg.slots : gg.slots[s].k = "err" /\ gg.slots[s].ek = "toomanyredirects" }
+RedirPairs(a, b) == { <<s, a.redirects[s]>> : s \in DOMAIN a.redirects } \cup { <<s, b.redirects[s]>> : s \in DOMAIN b.redirects }
+RECURSIVE RedirClosure(_, _)
+RedirClosure(R, S) == LET T == S \cup { p[2] : p \in { q \in R : q[1] \in S } } \cup { p[1] : p \in { q \in R : q[2] \in S } }
+                      IN IF T = S THEN S ELSE RedirClosure(R, T)
+TmrExplains(a, b, d) ==
+  LET seed == TmrSpecs(a) \cup TmrSpecs(b)
+      rel == RedirClosure(RedirPairs(a, b), seed)
+  IN seed # {} /\ d \subseteq (rel \cup Below(a, rel) \cup Below(b, rel))
+
 PruneEv ==
   /\ Rec[l].ev = "prune"
   /\ LET e == Rec[l]
          p == Bind(e.pruned)
          c == Bind(e.code)
          ctxk == CtxExplains(p, c, ObsCode(p), ObsCode(c))
-     IN /\ Check("C17", "prune-obs-eq", ObsCode(p) = ObsCode(c), "CTX", ctxk, DiffSpecs(ObsCode(p), ObsCode(c)), "-")
+         tmr == TmrExplains(p, c, DiffSpecs(ObsCode(p), ObsCode(c)))
+     IN /\ Check("C17", "prune-obs-eq", ObsCode(p) = ObsCode(c), IF tmr THEN "F20" ELSE "CTX", ctxk \/ tmr, DiffSpecs(ObsCode(p), ObsCode(c)), "-")
         /\ Check("C17", "prune-no-types-left", NoTypesLeft(p), "-", FALSE, p, "-")
-        /\ Check("C17", "prune-valid", e.validPruned = e.validCode, "CTX", ctxk, e.validPruned, e.validCode)
+        /\ Check("C17", "prune-valid", e.validPruned = e.validCode, IF tmr THEN "F20" ELSE "CTX", ctxk \/ tmr, e.validPruned, e.validCode)
         /\ Drift("prune-coded", Prune(g).slots = p.slots /\ Prune(g).redirects = p.redirects)
   /\ l' = l + 1 /\ UNCHANGED g
 
@@ -150,10 +166,16 @@ SegmentEv ==
                    /\ (~IsNone(dg.slots[s].tdep) \/ dg.slots[s].chk = "js"))
                   \/ s \in Below(dg, { x \in DOMAIN dg.slots : x \notin DOMAIN sg.slots })
          ctxk == CtxExplains(sg, dg, EntryObs(sg), EntryObs(dg))
-     IN /\ Check("C18", "segment-resolve_dependency", sameDeps, "F7", g.kind = "types", "-", "-")
-        /\ Check("C18", "segment-lookups", sameLook, "F7", g.kind = "types", "-", "-")
-        /\ Check("C18", "segment-validation", sameValid, "F7", g.kind = "types", "-", "-")
-        /\ (IF ~notRoots THEN TRUE ELSE Check("C18", "segment-equals-direct-build", EntryObs(sg) = EntryObs(dg), IF ctxk THEN "CTX" ELSE "F7", ctxk \/ f7,
+         tmr == TmrExplains(sg, dg, DiffSpecs(EntryObs(sg), EntryObs(dg)))
+         \* F12: an error entry stored at a specifier that is also a redirect source (inside a loader-built
+         \* cycle): the walk -- hence the segment -- sees the entry, lookups on the original follow the redirect
+         f12 == \E s \in DOMAIN g.slots : s \in DOMAIN g.redirects
+         kid == IF f12 THEN "F12" ELSE "F7"
+         kc == f12 \/ g.kind = "types"
+     IN /\ Check("C18", "segment-resolve_dependency", sameDeps, kid, kc, "-", "-")
+        /\ Check("C18", "segment-lookups", sameLook, kid, kc, "-", "-")
+        /\ Check("C18", "segment-validation", sameValid, kid, kc, "-", "-")
+        /\ (IF ~notRoots THEN TRUE ELSE Check("C18", "segment-equals-direct-build", EntryObs(sg) = EntryObs(dg), IF tmr THEN "F20" ELSE IF ctxk THEN "CTX" ELSE "F7", tmr \/ ctxk \/ f7,
                                 DiffSpecs(EntryObs(sg), EntryObs(dg)), "-"))
         /\ Drift("segment-coded", Segment(g, e.roots).slots = sg.slots /\ Segment(g, e.roots).redirects = sg.redirects)
   /\ l' = l + 1 /\ UNCHANGED g
@@ -163,15 +185,38 @@ FullObs(gg) == [ slots |-> [s \in DOMAIN gg.slots |-> IF gg.slots[s].k = "err" T
 IncrEv ==
   /\ Rec[l].ev = "incr"
   /\ LET a == Bind(Rec[l].inc)  b == Bind(Rec[l].once)
-     IN Check("C19", "incremental-equals-at-once", FullObs(a) = FullObs(b), "CTX", CtxExplains(a, b, FullObs(a), FullObs(b)),
-              DiffSpecs(FullObs(a), FullObs(b)), "-")
+         d == DiffSpecs(FullObs(a), FullObs(b))
+         cyc == TmrExplains(a, b, d)
+         ctxk == CtxExplains(a, b, FullObs(a), FullObs(b))
+     IN Check("C19", "incremental-equals-at-once", d = {}, IF cyc THEN "F20" ELSE "CTX", cyc \/ ctxk, d, "-")
   /\ l' = l + 1 /\ UNCHANGED g
 RebuildEv ==
   /\ Rec[l].ev = "rebuild"
   /\ Check("C19", "rebuild-known-roots-identity", Rec[l].same, "-", FALSE, Rec[l].same, TRUE)
   /\ l' = l + 1 /\ UNCHANGED g
 
-Next == l <= Len(Rec) /\ (Reset \/ WalkEv \/ ValidEv \/ LookupEv \/ SpecifiersEv \/ ResDepEv \/ PruneEv \/ SegmentEv \/ IncrEv \/ RebuildEv)
+\* C19 (second half): after reloading the edited specifiers, everything reachable from the roots in the
+\* new sources equals the from-scratch build, and entries that are no longer reachable are unaltered.
+\* g = graph before the reload.
+ReloadEv ==
+  /\ Rec[l].ev = "reload"
+  /\ LET e == Rec[l]
+         a == Bind(e.after)
+         f == Bind(e.fresh)
+         ed == SeqToSet(e.edited) \cup { Resolve(g, s) : s \in SeqToSet(e.edited) }
+         reach == (DOMAIN f.slots) \cup (DOMAIN f.redirects)
+         badSlots == { s \in DOMAIN f.slots : ~(s \in DOMAIN a.slots /\ FullObs(a).slots[s] = FullObs(f).slots[s]) }
+         badRedir == { s \in DOMAIN f.redirects : ~(s \in DOMAIN a.redirects /\ a.redirects[s] = f.redirects[s]) }
+         altered == { s \in (DOMAIN g.slots) \ (reach \cup ed) : ~(s \in DOMAIN a.slots /\ a.slots[s] = g.slots[s]) }
+         ctxk == g.ctx # {} /\ (badSlots \cup badRedir) \subseteq (Below(a, g.ctx) \cup Below(f, g.ctx) \cup Below(g, g.ctx))
+         tmr == TmrExplains(a, f, badSlots \cup badRedir)
+     IN /\ Check("C19", "reload-reachable-equals-fresh", badSlots = {}, IF tmr THEN "F20" ELSE "CTX", ctxk \/ tmr, badSlots, "-")
+        /\ Check("C19", "reload-redirects-equal-fresh", badRedir = {}, IF tmr THEN "F20" ELSE "CTX", ctxk \/ tmr, badRedir, "-")
+        /\ Check("C19", "reload-unreachable-unaltered", altered = {}, "-", FALSE, altered, "-")
+        /\ Check("C19", "reload-nothing-pending", \A s \in DOMAIN a.slots : a.slots[s].k # "pending", "-", FALSE, "-", "-")
+  /\ l' = l + 1 /\ UNCHANGED g
+
+Next == l <= Len(Rec) /\ (ReloadEv \/ Reset \/ WalkEv \/ ValidEv \/ LookupEv \/ SpecifiersEv \/ ResDepEv \/ PruneEv \/ SegmentEv \/ IncrEv \/ RebuildEv)
 Spec == Init /\ [][Next]_vars
 
 Accepted == IF TLCGet("stats").diameter - 1 = Len(Rec) THEN PrintT(<<"ACCEPTED", Len(Rec)>>)
